@@ -35,6 +35,9 @@ Definition cont_ok (st : state) (p : proc) : Prop :=
   | PChild k _ nx => exists c, p_child p = Some c /\ c < s_fresh st /\ cnext st c = k
                                /\ (nx = true -> s_next st c = Some k)
                                /\ (forall f, p_last p = Some f -> sid f = c)
+                               (* the creation's own frame is the only one so far and the counter was never recorded:
+                                  the cache still holds nothing for the child (a failed save_index returns here) *)
+                               /\ 1 <= k /\ (nx = false -> k = 1 -> s_next st c = None)
   | _ => True
   end.
 
